@@ -9,7 +9,7 @@ CASE_TYPE = "case05"
 CHECK_FN = "check_cases"
 MISMATCH_IS_VIOLATION = False
 RULE = ("histories of 3-25 operations on one MonitoredDatabase (= CachedDatabase + monitor): cached search, monitored search, invalidate, enable, disable, "
-        "expiry sweep, UpdateDatabase (one of 3 generated databases), stats; queries drawn with repeats from a pool of 4 queries with upper-case, re-cased and "
+        "expiry sweep, UpdateDatabase or LoadDatabaseWithMonitoring (one of 3 generated databases), stats; queries drawn with repeats from a pool of 4 queries with upper-case, re-cased and "
         "space-padded variants; options drawn from a pool in which every field of SearchOptions is varied one at a time (limit, boosts, pipeline-only, pipeline "
         "boost, fuzzy, threshold, NLP, term cap, all-platforms, platforms, no-cross-platform). After every search the uncached SearchUniversal is called on the same "
         "Database: the two answers must be identical (predicate), and the model (Model/CacheLayer.v over Model/Lru.v) must predict every answer and the "
@@ -30,7 +30,8 @@ def coq_step(s):
     if s["op"] in ("search", "monsearch"):
         return "(SSearch %s %s %s %s %s, %s)" % (core.cbool(s["op"] == "monsearch"), core.cbytes(bytes(s.get("q") or [])), ec.copts(sorted_opts(s["opts"])),
                                                  ec.cres(s.get("got")), ec.cres(s.get("fresh")), st)
-    return '(SOther "%s" %s, %s)' % (s["op"], core.cnat(s.get("db_sel", 0)), st)
+    # "monload" (LoadDatabaseWithMonitoring) is the same abstract operation as "update": the database is replaced
+    return '(SOther "%s" %s, %s)' % ("update" if s["op"] == "monload" else s["op"], core.cnat(s.get("db_sel", 0)), st)
 
 
 def coq_case(c):
